@@ -31,10 +31,10 @@ LEVEL_NOTE = ('Grids are pairwise non-degenerate by construction and the referen
 RULE = ("cases: package configurations; executions: one whole pipeline run (data file with all plants of the configuration) and one evaluation per planted source; non-trivial = "
         "distinct (configuration, planted model, A_V0, distance) with a non-identity parameter table or a multi-aperture package")
 ASSUMPTIONS = ["pairwise non-degenerate model grids (margin measured by the reference)", "photometric errors equal relative size on all bands"]
-REQUIRED_CLASSES = ['mode-2d', 'mode-3d', 'fmt-v1', 'fmt-v2', 'planted-at-av-range-end', 'planted-first-distance', 'planted-last-distance', 'permuted-table', 'listing-first-row']
+REQUIRED_CLASSES = ['mode-2d', 'mode-3d', 'fmt-v1', 'fmt-v2', 'planted-at-av-range-end', 'planted-first-distance', 'planted-last-distance', 'permuted-table', 'listing-first-row', 'seds-on-different-grids', 'dead-model-in-package']
 TIMEOUT = {'quick': 600, 'thorough': 3000}
 
-AXES = {'fmt': ['v1', 'v2'], 'n_ap': [3, 1], 'n_models': [4, 2, 6], 'perm': ['rotated', 'identity', 'reversed'], 'sord': ['wav-desc', 'wav-asc'], 'rel': [0.01, 0.1]}
+AXES = {'fmt': ['v1', 'v2'], 'n_ap': [3, 1], 'n_models': [4, 2, 6], 'perm': ['rotated', 'identity', 'reversed'], 'sord': ['wav-desc', 'wav-asc'], 'rel': [0.01, 0.1], 'grids': ['same', 'interior'], 'dead': [False, True]}
 
 
 def setup(tier, seed):
@@ -62,7 +62,11 @@ def run_case(ctx, case, rec, d):
     n_models, n_ap, fmt, rel = case['n_models'], case['n_ap'], case['fmt'], case['rel']
     mode = '3d' if n_ap > 1 else '2d'
     perm = {'identity': list(range(n_models)), 'reversed': list(range(n_models))[::-1], 'rotated': [(i + 1) % n_models for i in range(n_models)]}[case['perm']]
-    pk = sp.build(d, 'pkg', fmt, n_models, n_ap, perm, sord=case['sord'], seed=seed)
+    pk = sp.build(d, 'pkg', fmt, n_models, n_ap, perm, sord=case['sord'], seed=seed, grids=case['grids'], dead=case['dead'])
+    if case['grids'] != 'same' and fmt == 'v1':
+        rec.cls('seds-on-different-grids')
+    if case['dead']:
+        rec.cls('dead-model-in-package')
     filt, fdefs = sp.filters()
     rec.cls('mode-' + mode)
     rec.cls('fmt-' + fmt)
@@ -92,7 +96,13 @@ def run_case(ctx, case, rec, d):
         logm = np.log10(conv[:, :, 0])
     plants = []
     lines = []
-    for m in range(n_models):
+    live = [m for m in range(n_models) if not (case['dead'] and m == n_models - 1)]
+    with np.errstate(divide='ignore'):
+        if mode == '3d':
+            logm3 = np.where(np.isfinite(logm3), logm3, -300.0)
+        else:
+            logm = np.where(np.isfinite(logm), logm, -300.0)
+    for m in live:
         for ia, a0 in enumerate((avlo, 4.0, avhi)):
             for idd in range(3):
                 if mode == '3d':
